@@ -344,7 +344,101 @@ def gen_path(ctx):
     return chunked(ops, 120)
 
 
-GROUPS = [("bits", gen_bits), ("hex", gen_hex), ("str", gen_str), ("num", gen_num), ("path", gen_path)]
+FPARSERS = ["tof", "tod", "told"]
+
+
+def gen_float(ctx):
+    rng = ctx.rng
+    ops = []
+
+    def emit(s, which=None):
+        h = hx(s)
+        for p in (which or FPARSERS):
+            ops.append("%s %s" % (p, h))
+            ops.append("str%s %s" % (p, h))
+
+    # limits of the three formats: largest finite, overflow threshold, smallest normal/subnormal
+    edge = [
+        "3.4028234e38", "3.4028235e38", "3.4028235677973366e38", "3.40282357e38", "3.4028236e38", "3.5e38", "1e39",
+        "340282346638528859811704183484516925440", "340282356779733661637539395458142568447",
+        "340282356779733661637539395458142568448", "340282356779733661637539395458142568449",
+        "1.17549435e-38", "1.17549421e-38", "1.4e-45", "7.006492321624085e-46", "7.0064923216240853546186479164495806564013097093825788587853e-46",
+        "7.1e-46", "7e-46", "1e-46",
+        "1.7976931348623157e308", "1.7976931348623158e308", "1.7976931348623159e308", "1.797693134862315807e308",
+        "1.8e308", "1e309", "179769313486231580793728971405303415079934132710037826936173778980444968292764750946649017977587207096330286416692887910946555547851940402630657488671505820681908902000708383676273854845817711531764475730270069855571366959622842914819860834936475292719074168444365510704342711559699508093042880177904174497791",
+        "179769313486231580793728971405303415079934132710037826936173778980444968292764750946649017977587207096330286416692887910946555547851940402630657488671505820681908902000708383676273854845817711531764475730270069855571366959622842914819860834936475292719074168444365510704342711559699508093042880177904174497792",
+        "2.2250738585072014e-308", "2.2250738585072011e-308", "2.225073858507201e-308", "4.9406564584124654e-324", "5e-324",
+        "2.4703282292062327e-324", "2.4703282292062328e-324", "2.47032822920623272088284396434110686182e-324",
+        "2.47032822920623272088284396434110686183e-324", "2e-324", "1e-400",
+        "1.18973149535723176502e4932", "1.18973149535723176506e4932", "1.2e4932", "1e4933", "3.3621031431120935063e-4932",
+        "3.6451995318824746025e-4951", "1.8e-4951", "1e-4951", "1e-5000", "1e999", "1e-999", "10e300", "10e10000",
+        "9007199254740993", "9007199254740992", "9007199254740991", "9007199254740995", "16777217", "16777216", "16777219",
+        "18446744073709551615", "18446744073709551616", "18446744073709551617", "36893488147419103233",
+        "0.1", "0.2", "0.3", "1.1", "11.0", "1e23", "8.5e22", "123456789012345678901234567890", "0.000001", "5e-1", "5.e-1",
+        ".5", "5.", "0", "0.0", "00", "0e0", "0e99999", "1e0", "1E+2", "1e-2", "1e+", "1e", "1e-", "1ex", "1.5e3x",
+        "0x1p0", "0x1.8p1", "0X1.8P-1", "0x.8", "0x.8p1", "0x8.", "0x", "0x.", "0xp1", "0x1p", "0x1p+", "0x1pz", "0xg",
+        "0x1.fffffep127", "0x1.ffffffp127", "0x1.fffffefp127", "0x1p128", "0x1p-149", "0x1p-150", "0x1.8p-150", "0x1.000002p-150",
+        "0x1.fffffffffffffp1023", "0x1.fffffffffffff8p1023", "0x1.fffffffffffff7p1023", "0x1p1024", "0x1p-1074",
+        "0x1p-1075", "0x1.000000000000001p-1075", "0x1.8p-1075", "0x1p16383", "0x1.fffffffffffffffep16383",
+        "0x1.ffffffffffffffffp16383", "0x1p16384", "0x1p-16445", "0x1p-16446", "0x1.8p-16446",
+        "0x1.00000000000008p0", "0x1.000000000000080000001p0", "0x1.00000000000018p0", "0x1.0000010p0", "0x1.000003p0",
+        "inf", "INF", "Infinity", "infinit", "infinityx", "infx", "in", "i", "nan", "NaN", "nan()", "nan(1)", "nan(abc_9)",
+        "nan(", "nan(1", "nan(-)", "nanx", "na", "n", "nan(1)x", "", " ", ".", "-", "+", "+-1", "-.", ".e1", "e1", "-e1",
+        "1 2", "1,5", "1_0", "0x1.8p1.5", "1e5.5", "1..2", "1.2.3", "--1", "1d5", "1f", "1L", "0b1", "1e1e1",
+    ]
+    for e in edge:
+        for sg in ("", "-", "+"):
+            for ld, tr in (("", ""), (" ", ""), ("", " "), ("\t", " \n"), ("", "x"), ("", " x")):
+                emit(ld + sg + e + tr)
+    # random decimal and hexadecimal numerals around the three formats' ranges
+    for _ in range(800 if ctx.quick else 30000):
+        r = rng.random()
+        nd = rng.choice([1, 2, 7, 9, 17, 18, 21, 25, 40])
+        digs = "".join(rng.choice("0123456789") for _ in range(nd))
+        if r < 0.7:
+            dot = rng.randrange(0, nd + 1)
+            body = digs[:dot] + (("." + digs[dot:]) if rng.random() < 0.8 else digs[dot:])
+            if body in ("", "."):
+                body = "1"
+            if rng.random() < 0.8:
+                ex = rng.choice([0, 1, -1, 37, 38, 39, -37, -38, -45, -46, 307, 308, 309, -307, -308, -323, -324,
+                                 -325, 4931, 4932, 4933, -4931, -4932, -4950, -4951, -4952,
+                                 rng.randrange(-5100, 5100), rng.randrange(-60, 60)])
+                ex -= max(0, dot - 1) if rng.random() < 0.5 else 0
+                body += rng.choice("eE") + rng.choice(["", "+"] if ex >= 0 else [""]) + str(ex)
+        else:
+            # hexadecimal numerals. glibc 2.36 mis-rounds some hexadecimal numerals in the subnormal
+            # range (sticky bit exactly MANT_DIG places below the rounding position is dropped, e.g.
+            # strtof("0x1.000001p-150") == 0): long mantissas are kept in the normal range of the
+            # parser they are sent to, subnormal ones get at most 4 hex digits.
+            which = rng.choice(FPARSERS)
+            lo, hi, sub = {"tof": (-126, 128, -150), "tod": (-1022, 1024, -1075),
+                           "told": (-16382, 16384, -16446)}[which]
+            if rng.random() < 0.75:
+                hd = "".join(rng.choice("0123456789abcdefABCDEF")
+                             for _ in range(rng.choice([1, 2, 6, 7, 13, 14, 15, 16, 17, 20])))
+                hd = rng.choice("123456789abcdef") + hd[1:]
+                ex = rng.choice([lo, lo + 1, hi - 2, hi - 1, hi, hi + 1, 0, 1, rng.randrange(lo, hi + 3),
+                                 rng.randrange(-100, 100) if which != "tof" else rng.randrange(-60, 60)])
+                ex = max(ex, lo)
+            else:
+                hd = "".join(rng.choice("0123456789abcdef") for _ in range(rng.choice([1, 2, 3, 4])))
+                ex = rng.choice([sub - 20, sub - 1, sub, sub + 1, sub + 2, lo - 1, lo - 2, rng.randrange(sub - 5, lo)])
+            dot = rng.randrange(1, len(hd) + 1)
+            # value = 0x hd[:dot] . hd[dot:] * 2^pe with leading bit exponent about ex
+            pe = ex - 4 * (dot - 1)
+            body = rng.choice(["0x", "0X"]) + hd[:dot] + rng.choice([".", "."]) + hd[dot:] + rng.choice("pP") + str(pe)
+            s = rng.choice(["", "", " ", "\n "]) + rng.choice(["", "", "-", "+"]) + body + \
+                rng.choice(["", "", "", " ", "\t", "x", " 1", "e", "p"])
+            emit(s, which=[which])
+            continue
+        s = rng.choice(["", "", " ", "\n "]) + rng.choice(["", "", "-", "+"]) + body + \
+            rng.choice(["", "", "", " ", "\t", "x", " 1", "e", "p"])
+        emit(s, which=[rng.choice(FPARSERS)])
+    return chunked(ops, 150)
+
+
+GROUPS = [("bits", gen_bits), ("hex", gen_hex), ("str", gen_str), ("num", gen_num), ("float", gen_float), ("path", gen_path)]
 
 
 def nontrivial(ops, out):
